@@ -54,7 +54,7 @@ class ShapePkg:
 
 
 def to_script(api, hist):
-    lines = []
+    lines = ["keepgoing"]               # a rejected call does not end the history (ProtocolSM.tla errs)
     for h in hist:
         c = h["call"]
         op, i, n = c["op"], c["i"], c["n"]
@@ -88,7 +88,9 @@ def judge(api, case, lines, shape):
         if h["allowed"] == "reject" and ok:
             return "call %d %s is out of order in this state but was accepted (%s)" % (k, json.dumps(h["call"]), outs[k]), drift
         if not ok:
-            return None, drift          # rejected (allowed): the sequence ends here
+            if h["allowed"] == "reject":
+                continue                # rejected as required: the history goes on with further out-of-order calls (ProtocolSM.tla errs)
+            return None, drift          # an "either" call that the code refused: the sequence ends here
         # results of accepted reader calls
         f = outs[k].split()
         if api == "cppr" and h["call"]["op"] in ("one", "batch") and len(f) >= 3:
